@@ -66,13 +66,8 @@ def _g1_ok(p):
 def install_monitor():
     if _mon["installed"]:
         return
-    import py_ecc.bls.ciphersuites as cs
-    real = getattr(cs, "pairing", None)
-    if real is None:
-        raise HarnessError("py_ecc.bls.ciphersuites no longer calls a module-level 'pairing': the pairing-argument "
-                           "monitor of C04 has to be re-anchored")
 
-    def monitored(Q, Pt, *a, **k):
+    def observe(Q, Pt):
         try:
             q, p = bc.back("G2", Q), bc.back("G1", Pt)
             _mon["calls"].append(1)
@@ -84,9 +79,11 @@ def install_monitor():
                                         f"or outside the subgroup: {p}")
         except Exception as e:  # noqa - a malformed argument object is itself a finding
             _mon["problems"].append(f"pairing called with malformed arguments: {e!r}")
-        return real(Q, Pt, *a, **k)
 
-    cs.pairing = monitored
+    try:
+        bc.install_pairing_monitor(observe)
+    except RuntimeError as e:
+        raise HarnessError(f"{e}: the pairing-argument monitor of C04 has to be re-anchored")
     _mon["installed"] = True
 
 
